@@ -22,9 +22,10 @@ const (
 	OutOK = iota
 	OutErr
 	OutGoexit
-	OutCancel      // cancels the context, then returns nil
-	OutHang        // never returns
-	OutErrCanceled // returns an error that is context.Canceled although the directive's context is live
+	OutCancel       // cancels the context, then returns nil
+	OutHang         // never returns
+	OutErrCanceled  // returns an error that is context.Canceled although the directive's context is live
+	OutCancelGoexit // cancels the context the job was enqueued with, then exits its goroutine (runtime.Goexit)
 )
 
 type Cube struct {
@@ -46,6 +47,8 @@ type Cube struct {
 	// "unknown" is recorded as undecided and is not part of the claim (the
 	// full proof of the cube lives in the thorough tier).
 	Hunt string `json:",omitempty"`
+	// SameErr: every failing job returns the same error value (shared sentinel).
+	SameErr bool `json:",omitempty"`
 	// JobCtx: the jobs are enqueued with their own context (pre-cancelled or
 	// not: solver's choice) while Wait is called with a context that stays live.
 	JobCtx bool `json:",omitempty"`
@@ -77,6 +80,9 @@ func (c *Cube) String() string {
 	}
 	if c.JobCtx {
 		per += " jobctx"
+	}
+	if c.SameErr {
+		per += " same-error"
 	}
 	return fmt.Sprintf("J%d[%s]N%d%s%s out=%v%s g%d pre=%v tmr=%v", c.J(), strings.Join(ds, "|"), c.N, mode, em, c.Outcomes, per, c.MaxGoex, c.PreCanc, c.Timer)
 }
@@ -253,6 +259,15 @@ func opaqueErr(B *TB, data uint64) Value { return Value{B.BV(16, TagOpaqErr), B.
 func nilIface(B *TB) Value               { return Value{B.BV(16, 0), B.BV(64, 0)} }
 
 func (l *L1) ctxDone(p *Path) *Term { return l.E.chanClosed(p, l.ctxChan) }
+
+// errDataOf: the identity of the error job k returns when it fails. In SameErr
+// cubes every job returns the same error value (a shared sentinel).
+func (l *L1) errDataOf(k int) uint64 {
+	if l.Cube.SameErr {
+		return errDataJobBase
+	}
+	return errDataJobBase + uint64(k)
+}
 
 // jobCtxDone: the context the jobs were enqueued with is done.
 func (l *L1) jobCtxDone(p *Path) *Term {
@@ -440,11 +455,26 @@ func (l *L1) installIntrinsics() {
 					vs = append(vs, StubVariant{What: "err", En: B.Eq(out, B.BV(8, OutErr)), Apply: func(e *Engine, q *Path, ic *ICall) {
 						common(q)
 						q.Store(e, l.failed[k], B.True)
-						ic.Return(e, q, opaqueErr(B, errDataJobBase+uint64(k)))
+						ic.Return(e, q, opaqueErr(B, l.errDataOf(k)))
 					}})
 				case OutGoexit:
 					vs = append(vs, StubVariant{What: "goexit", En: B.Eq(out, B.BV(8, OutGoexit)), Apply: func(e *Engine, q *Path, ic *ICall) {
 						common(q)
+						q.Store(e, l.failed[k], B.True)
+						q.Store(e, l.goexited[k], B.True)
+						e.raisePanic(q, nil, true)
+					}})
+				case OutCancelGoexit:
+					vs = append(vs, StubVariant{What: "cancelgoexit", En: B.Eq(out, B.BV(8, OutCancelGoexit)), Apply: func(e *Engine, q *Path, ic *ICall) {
+						common(q)
+						ch := l.ctxChan
+						if l.jobCtxChan != nil {
+							ch = l.jobCtxChan
+						}
+						if e.Race != nil {
+							e.Race.ReleaseJoin(q, q.Cur.Pid, fmt.Sprintf("close%d", ch.Base))
+						}
+						q.Store(e, ch.Base, B.True)
 						q.Store(e, l.failed[k], B.True)
 						q.Store(e, l.goexited[k], B.True)
 						e.raisePanic(q, nil, true)
@@ -476,7 +506,7 @@ func (l *L1) installIntrinsics() {
 }
 
 func (l *L1) cancellable() bool {
-	return l.Cube.PreCanc || l.Cube.Timer || l.Cube.JobCtx || has(l.Cube.Outcomes, OutCancel)
+	return l.Cube.PreCanc || l.Cube.Timer || l.Cube.JobCtx || has(l.Cube.Outcomes, OutCancel) || has(l.Cube.Outcomes, OutCancelGoexit)
 }
 
 func (l *L1) effN() int {
@@ -533,7 +563,7 @@ func (l *L1) atReturn(p *Path, err Value) {
 		legit := B.And(ctxDone, e.valEq(err, opaqueErr(B, errDataCanceled)))
 		anyGoexit := B.False
 		for k := 0; k < J; k++ {
-			legit = B.Or(legit, B.And(p.Load(e, l.failed[k]), B.Not(p.Load(e, l.goexited[k])), B.Not(p.Load(e, l.errCanc[k])), e.valEq(err, opaqueErr(B, errDataJobBase+uint64(k)))))
+			legit = B.Or(legit, B.And(p.Load(e, l.failed[k]), B.Not(p.Load(e, l.goexited[k])), B.Not(p.Load(e, l.errCanc[k])), e.valEq(err, opaqueErr(B, l.errDataOf(k)))))
 			legit = B.Or(legit, B.And(p.Load(e, l.errCanc[k]), e.valEq(err, opaqueErr(B, errDataCanceled))))
 			anyGoexit = B.Or(anyGoexit, p.Load(e, l.goexited[k]))
 		}
@@ -584,9 +614,15 @@ func (l *L1) atReturnContinue(p *Path, err Value) {
 		// each plain failure appears exactly once
 		cnt := B.BV(8, 0)
 		for i, it := range items {
-			cnt = B.Add(cnt, B.BoolToBV(B.And(B.Ult(B.BV(8, uint64(i)), n), e.valEq(it, opaqueErr(B, errDataJobBase+uint64(k)))), 8))
+			cnt = B.Add(cnt, B.BoolToBV(B.And(B.Ult(B.BV(8, uint64(i)), n), e.valEq(it, opaqueErr(B, l.errDataOf(k)))), 8))
 		}
-		wantK := B.BoolToBV(B.And(f, B.Not(g)), 8)
+		// ... as often as there are failed jobs returning that very error value
+		wantK := B.BV(8, 0)
+		for j := 0; j < J; j++ {
+			if l.errDataOf(j) == l.errDataOf(k) {
+				wantK = B.Add(wantK, B.BoolToBV(B.And(p.Load(e, l.failed[j]), B.Not(p.Load(e, l.goexited[j]))), 8))
+			}
+		}
 		wrong = B.Or(wrong, B.Not(B.Eq(cnt, wantK)))
 	}
 	cntExit := B.BV(8, 0)
@@ -603,7 +639,7 @@ func (l *L1) atReturnContinue(p *Path, err Value) {
 		in := B.Ult(B.BV(8, uint64(i)), n)
 		known := B.Or(e.valEq(it, opaqueErr(B, errDataCanceled)), e.valEq(it, exitErr))
 		for k := 0; k < J; k++ {
-			known = B.Or(known, B.And(p.Load(e, l.failed[k]), e.valEq(it, opaqueErr(B, errDataJobBase+uint64(k)))))
+			known = B.Or(known, B.And(p.Load(e, l.failed[k]), e.valEq(it, opaqueErr(B, l.errDataOf(k)))))
 		}
 		extra = B.Or(extra, B.And(in, B.Not(known)))
 	}
@@ -749,10 +785,10 @@ func (l *L1) Build() {
 		}
 		return false
 	}
-	if has(OutGoexit) {
+	if has(OutGoexit) || has(OutCancelGoexit) {
 		n := B.BV(8, 0)
 		for k := range l.Out {
-			n = B.Add(n, B.BoolToBV(B.Eq(l.Out[k], B.BV(8, OutGoexit)), 8))
+			n = B.Add(n, B.BoolToBV(B.Or(B.Eq(l.Out[k], B.BV(8, OutGoexit)), B.Eq(l.Out[k], B.BV(8, OutCancelGoexit))), 8))
 		}
 		s.Constraints = append(s.Constraints, B.Ule(n, B.BV(8, uint64(c.MaxGoex))))
 	}
